@@ -124,4 +124,6 @@ def run_main_from(cfg, rng, start_state):
             concentration_update=c["conc_update"], data=data, max_time=c["max_time"], num_iters=c["iters"], num_samples_data_point=c["n_dp"],
             num_samples_prune_regraph=c["n_prg"], print_freq=100, samplers=samplers, samples=samples, thin=c["thin"], timer=timer, tree=tree,
             tree_dist=tree_dist, chain_num=0, rng=rng, subtree_update_prob=c["subtree_prob"]))
+    if isinstance(res, list):  # a driver that hands back the bare trace
+        res = {"trace": res}
     return res, data
